@@ -157,6 +157,18 @@ def check(spec):
     a = spec["assets"][0]
     dt = tl.dt(g)
     out.label("mode:" + spec["mode"], "class:" + spec["cls"])
+    if spec["mode"] != "coarse" and a.get("_q") and g.get("tz"):
+        # EAO anchors the duration blocks by calendar arithmetic starting one duration before the grid: a DST switch
+        # in that stretch moves the anchor by an hour and with it the blocks by a step.  Where blocks begin is not
+        # part of the statement (anchored sizes such as 'W' follow the calendar anyway); the reference counts them
+        # from the grid start, so such grids are left out
+        import pandas as pd
+        t0 = pd.Timestamp(tl.point(g, 0))
+        if t0.tzinfo is None:
+            t0 = t0.tz_localize(g["tz"])
+        back = (tl.point(g, 1) - tl.point(g, 0)) * (a["_p"] * (a["_q"] + 1))
+        if (t0 - back).utcoffset() != t0.utcoffset():
+            return out.drop("dst_switch_before_grid_moves_block_anchor")
     r = obs.Run(spec)
     if is_err(r.op):
         return out.fail("set-up of a %s asset with %s raised %s"
